@@ -5,8 +5,8 @@ import (
 	"go/ast"
 	"go/token"
 	"go/types"
-	"strings"
 	"sort"
+	"strings"
 
 	"golang.org/x/tools/go/packages"
 	"golang.org/x/tools/go/types/typeutil"
@@ -107,7 +107,7 @@ func refDMGenerator(n int) []int {
 		alpha = gfMul(alpha, 2, 0x12D)
 		next := make([]int, len(poly)+1)
 		for k, c := range poly {
-			next[k+1] ^= c                       // * x
+			next[k+1] ^= c                    // * x
 			next[k] ^= gfMul(c, alpha, 0x12D) // * alpha^i  (minus = plus)
 		}
 		poly = next
@@ -1339,26 +1339,54 @@ func checkDMEccOrder(c *Ctx, r *Report) {
 		return true
 	})
 	ast.Inspect(efd.Body, func(n ast.Node) bool {
-		if l, ok := n.(*ast.ForStmt); ok && eloop != nil && l != eloop && l.Pos() < eloop.Pos() && eloop.End() <= l.End() {
+		if l, ok := n.(*ast.ForStmt); ok && eloop != nil && l != eloop && containsNode(l, eloop) {
 			blockLoop = l
 		}
 		return true
 	})
-	// decoder: the statements computing jOffset / iOffset inside the check-word loops
+	// decoder: the loop pair whose body stores into result[J].codewords[I] with J and I defined in that very body (the
+	// offsets of the check-word pass); the variables are found by their roles, not by their names
 	var dstmts []ast.Stmt
-	var jObj, iObj, jOff, iOff types.Object
+	var jObj, iObj, jOff, iOff, specialObj, nObj types.Object
 	ast.Inspect(dfd.Body, func(n ast.Node) bool {
-		l, ok := n.(*ast.ForStmt)
-		if !ok {
+		outer, ok := n.(*ast.ForStmt)
+		if !ok || dstmts != nil {
 			return true
 		}
-		for _, st := range l.Body.List {
-			if as, isA := st.(*ast.AssignStmt); isA && as.Tok == token.DEFINE && len(as.Lhs) == 1 {
-				if id, isI := as.Lhs[0].(*ast.Ident); isI && id.Name == "jOffset" {
-					dstmts = l.Body.List
-					if in, isIn := l.Init.(*ast.AssignStmt); isIn {
-						jObj = identObj(dp, in.Lhs[0])
-					}
+		for _, st := range outer.Body.List {
+			inner, isF := st.(*ast.ForStmt)
+			if !isF {
+				continue
+			}
+			defined := map[types.Object]bool{}
+			for _, bst := range inner.Body.List {
+				as, isA := bst.(*ast.AssignStmt)
+				if !isA || len(as.Lhs) != 1 {
+					continue
+				}
+				if id, isI := as.Lhs[0].(*ast.Ident); isI && as.Tok == token.DEFINE {
+					defined[dp.TypesInfo.Defs[id]] = true
+					continue
+				}
+				// result[J].codewords[I] = ...
+				ixI, isIx := as.Lhs[0].(*ast.IndexExpr)
+				if !isIx {
+					continue
+				}
+				sel, isS := ixI.X.(*ast.SelectorExpr)
+				if !isS {
+					continue
+				}
+				ixJ, isIx2 := sel.X.(*ast.IndexExpr)
+				if !isIx2 {
+					continue
+				}
+				jo, io := identObj(dp, ixJ.Index), identObj(dp, ixI.Index)
+				if jo != nil && io != nil && defined[jo] && defined[io] {
+					dstmts, jOff, iOff = inner.Body.List, jo, io
+					jl, jn := loopCondIdents(dp, inner)
+					il, _ := loopCondIdents(dp, outer)
+					jObj, nObj, iObj = jl, jn, il
 				}
 			}
 		}
@@ -1368,40 +1396,21 @@ func checkDMEccOrder(c *Ctx, r *Report) {
 		r.Undecided("S-DMECCORDER", "datamatrix ECC interleave", c.pos(efd.Pos()), "check-word loops of the encoder / offset statements of the decoder not recognised")
 		return
 	}
-	// the outer decoder loop variable i
-	ast.Inspect(dfd.Body, func(n ast.Node) bool {
-		if l, ok := n.(*ast.ForStmt); ok {
-			for _, st := range l.Body.List {
-				if inner, isF := st.(*ast.ForStmt); isF && len(inner.Body.List) > 0 && &inner.Body.List[0] == &dstmts[0] {
-					if in, isIn := l.Init.(*ast.AssignStmt); isIn {
-						iObj = identObj(dp, in.Lhs[0])
-					}
-				}
-			}
-		}
-		return true
-	})
+	// the 144x144 flag: the condition of the if statement that adjusts the offsets
 	for _, st := range dstmts {
-		if as, isA := st.(*ast.AssignStmt); isA && as.Tok == token.DEFINE && len(as.Lhs) == 1 {
-			if id, isI := as.Lhs[0].(*ast.Ident); isI {
-				if id.Name == "jOffset" {
-					jOff = identObj(dp, id)
-				}
-				if id.Name == "iOffset" {
-					iOff = identObj(dp, id)
-				}
-			}
+		if ifs, isIf := st.(*ast.IfStmt); isIf && ifs.Init == nil {
+			specialObj = identObj(dp, ifs.Cond)
 		}
 	}
-	specialObj := localByName(dp, dfd, "specialVersion")
-	nObj := localByName(dp, dfd, "numResultBlocks")
 	if iObj == nil || jOff == nil || iOff == nil || specialObj == nil || nObj == nil {
 		r.Undecided("S-DMECCORDER", "datamatrix ECC interleave", c.pos(dfd.Pos()), "decoder offset variables not found")
 		return
 	}
 	blockObj := identObj(ep, blockLoop.Init.(*ast.AssignStmt).Lhs[0])
 	eObj := identObj(ep, eloop.Init.(*ast.AssignStmt).Lhs[0])
-	countObj := localByName(ep, efd, "blockCount")
+	countObj := firstResultOfCall(ep, efd, func(o types.Object) bool {
+		return isMethodNamed(o, "datamatrix/encoder", "SymbolInfo", "GetInterleavedBlockCount")
+	})
 	if blockObj == nil || eObj == nil || countObj == nil {
 		r.Undecided("S-DMECCORDER", "datamatrix ECC interleave", c.pos(efd.Pos()), "encoder loop variables not found")
 		return
